@@ -165,6 +165,13 @@ img_bc1!(c13_image_bc1_6x4, 6, 4);
 img_bc1!(c13_image_bc1_3x7, 3, 7);
 img_bc1!(c13_image_bc1_8x8, 8, 8);
 img_bc1!(c13_image_bc1_9x2, 9, 2);
+// one more size chosen by VERIF_SEED (gen/params.rs)
+#[kani::proof]
+#[kani::unwind(18)]
+fn c13_image_bc1_seeded_size() {
+    use crate::verif_support::params::{IMG_H as H, IMG_W as W};
+    image_bc1::<W, H, { ((W + 3) / 4) * ((H + 3) / 4) * 8 }, { W * H }>();
+}
 
 fn image_bc3<const W: usize, const H: usize, const NB: usize, const NP: usize>() {
     let data: [u8; NB] = kani::any();
